@@ -647,6 +647,19 @@ def main():
       stats = gr.own_stats(mb, gg.random_inputs(mb, rng, 1)) if qt.need_calibration else None
       yield mb, qt, stats, desc, dict(info, real_stats=True, directed='zero-point-rounds-to-zero')
 
+  def directed_unknown_reader(n):
+    """one constant read by an operator the quantizer does not know (stays float) and by
+    a statically quantized ADD / MUL: refused, or every reader sees values within a step"""
+    for _ in range(n):
+      mb, info = gg.unknown_reader_model(rng)
+      qt = quantizer.Quantizer(bytearray(mb))
+      cname = rng.choice(['a8w8', 'a8sw8', 'a16w8'])
+      desc = gr.apply_rules(qt, [('.*', rng.choice(['*', info['kind']]), gr.named_configs()[cname][0], cname)])
+      if not desc:
+        continue
+      stats = gr.own_stats(mb, gg.random_inputs(mb, rng, 1))
+      yield mb, qt, stats, desc, dict(info, real_stats=True, directed='constant-read-by-unknown-op')
+
   def directed_same_name_sharers(n):
     """constants tied across subgraphs whose tensors ALSO carry the same name
     (the layer exported under two signatures keeps its variable name) x one
@@ -692,7 +705,8 @@ def main():
       directed_same_tensor(400 if tier == 'thorough' else 40),
       directed_respec(200 if tier == 'thorough' else 20),
       directed_same_name_sharers(300 if tier == 'thorough' else 30),
-      directed_zp0(300 if tier == 'thorough' else 30)):
+      directed_zp0(300 if tier == 'thorough' else 30),
+      directed_unknown_reader(100 if tier == 'thorough' else 12)):
     dist['cases'] += 1
     if info.get('directed'):
       dist['directed:' + info['directed']] += 1
